@@ -1509,8 +1509,12 @@ write_gvar_data(Relocation *cur, Initializer *init, Type *ty, char *buf, int off
     return cur;
   }
 
-  if (ty->kind == TY_STRUCT) {
+  if (ty->kind == TY_STRUCT || ty->kind == TY_UNION) {
     for (Member *mem = ty->members; mem; mem = mem->next) {
+      // Only one member of a union is initialized.
+      if (ty->kind == TY_UNION && mem != init->mem)
+        continue;
+
       if (mem->is_bitfield) {
         Node *expr = init->children[mem->idx]->expr;
         if (!expr)
@@ -1528,13 +1532,6 @@ write_gvar_data(Relocation *cur, Initializer *init, Type *ty, char *buf, int off
       }
     }
     return cur;
-  }
-
-  if (ty->kind == TY_UNION) {
-    if (!init->mem)
-      return cur;
-    return write_gvar_data(cur, init->children[init->mem->idx],
-                           init->mem->ty, buf, offset);
   }
 
   if (!init->expr)
